@@ -161,4 +161,16 @@ CHECKS = {
         "level_note": "Stray writes are visible only if they land in the 64-byte canaries, the sibling value, or corrupt the value itself; reads past the private buffer are visible only through checkptr/crashes.",
         "assumptions": ["reflect.StructOf lays V and W out like a compiled struct would"],
     },
+    "C12": {
+        "pkg": "c12", "variants": [PLAIN], "mem_gb": 12,
+        "rule": ("rapid state machine (t.Repeat): histories of unmarshal (5 destination types holding strings, []byte, RawMessage, Number, interface{}, maps, and Unmarshaler/TextUnmarshaler that retain the slice they are "
+                 "given; input slices with 0..64 bytes of spare capacity; Unmarshal / UnmarshalWithOption / UnmarshalContext), decoder-next (one Decoder over a 6-document stream with a drawn chunking), scribble-input "
+                 "(overwrite a caller input including its spare capacity), marshal (sizes 1 B..1 MiB through 5 entry points; result kept), scribble-output (overwrite a kept result up to its capacity), churn (7 further calls of "
+                 "a drawn size) and gc. Invariant after every step: every value decoded earlier renders as it did right after decoding, every untouched Marshal result equals its snapshot, every untouched input equals its "
+                 "snapshot over its whole capacity, and each new Marshal result equals encoding/json's. Non-trivial = history with >= 4 steps including a scribble; distinct by hash of the step list."),
+        "technique": "stateful property-based testing (rapid state machine) with snapshot invariants over call histories; shrinks the history as one value",
+        "level_text": "Randomised exploration of call histories with aliasing invariants; exploration level.",
+        "level_note": "Aliasing shows only if some later step reuses or overwrites the shared memory; the history generator forces buffer reuse with sizes from 1 B to 1 MiB and explicit scribbling.",
+        "assumptions": ["deep rendering (gen.Render) of a decoded value captures everything a caller can observe"],
+    },
 }
